@@ -126,6 +126,19 @@ def Simple : Path → Bool
   | [a, b] => decide (a ≠ b)
   | _ => true
 
+/-- a closed ring `[v0, v1, …, v(n-1), v0]` is simple: its open part `[v0 … v(n-1)]` is simple, so is
+`[v1 … v(n-1), v0]` (which contains the closing segment), and the closing segment and the first
+segment meet in `v0` only.  (Not part of the property — the property claims simplicity for open line
+strings; used to state what does NOT hold for rings, `Proofs*.C13_ring_simplicity_not_preserved`.) -/
+def SimpleRing (r : Path) : Bool :=
+  match r with
+  | v0 :: v1 :: rest =>
+    (r.getLast? == some v0) && Simple r.dropLast && Simple (v1 :: rest) &&
+      (match r.dropLast.getLast? with
+       | some vl => hingeOK vl v0 v1
+       | none => false)
+  | _ => false
+
 def distinctFrom (a : P) (l : Path) : Bool := l.all fun b => decide (a ≠ b)
 
 def noneCollinear (a b : P) (l : Path) : Bool := l.all fun c => decide (orient a b c ≠ 0)
